@@ -38,9 +38,9 @@ TRUSTED = [
     "(only 'PTR in the answer section' matters without a browse), ASCII-only case mapping",
 ]
 PARTIAL = ("model domain: no browse / register calls in the same daemon; non-ASCII cased letters are outside the case "
-           "theorem; exact-time statements (timeout at start+timeout, schedule gaps) are for iterations that are not "
-           "late (the daemon is woken no later than it asked); wake-up requests are checked by the monitor "
-           "(wake <= next due time) but wake-up arithmetic itself is C12's")
+           "theorem; events and queries happen in loop iterations, so 'at start+timeout' / 'at last+gap' mean the first "
+           "iteration at or after that time (exactly then when the daemon is woken as it asked); wake-up requests are "
+           "checked by the monitor (wake <= next due time) but wake-up arithmetic itself is C12's")
 
 
 # ------------------------------------------------------------------------------------------ generation
